@@ -65,17 +65,17 @@ var (
 	reTernaryHelper   = regexp.MustCompile(`(?i)([\w\d\\.\[\]]+)\s*=\s*([^(]+)\(*([^)]*)\)\s*\?\s*([^:]+):(.*)`)
 	reTernaryCondExpr = regexp.MustCompile(`(?i)[\w\d\\.\[\]]+\s*=\s*(.*)\s*(==|!=|>=|<=|>|<)([^?]+)`)
 
-	reLoop      = regexp.MustCompile(`for .*`)
+	reLoop      = regexp.MustCompile(`^for .*`)
 	reLoopRange = regexp.MustCompile(`for ([^:]+)\s*:*=\s*range\s*([^\s]*)\s*\{` + "")
 	reLoopCount = regexp.MustCompile(`for (\w*)\s*:*=\s*(\w+)\s*;\s*\w+\s*(<=|>=|!=|<|>)\s*([^;]+)\s*;\s*\w*(--|\+\+)+\s*\{`)
 	reLoopBrk   = regexp.MustCompile(`break (\d+)`)
 	reLoopLBrk  = regexp.MustCompile(`lazybreak (\d+)`)
 
-	reCond        = regexp.MustCompile(`if .*`)
+	reCond        = regexp.MustCompile(`^if .*`)
 	reCondExpr    = regexp.MustCompile(`if (.*)(==|!=|>=|<=|>|<)(.*)\s*{`)
 	reCondHelper  = regexp.MustCompile(`if ([^(]+)\(*([^)]*)\)\s*{`)
 	reCondComplex = regexp.MustCompile(`if .*&&|\|\||\(|\).*\s*{`)
-	reCondOK      = regexp.MustCompile(`if (\w+),*\s*(\w*)\s*:*=\s*([^(]+)\(*([^)]*)\)(.*)\s*;\s*([!\w]+)\s*{`)
+	reCondOK      = regexp.MustCompile(`^if (\w+),*\s*(\w*)\s*:*=\s*([^(]+)\(*([^)]*)\)(.*)\s*;\s*([!\w]+)\s*{`)
 	reCondAsOK    = regexp.MustCompile(`if (\w+),*\s*(\w*)\s*:*=\s*([^(]+)\(*([^)]*)\) as (\w*)\s*;\s*([!\w]+)\s*{`)
 	reCondDotOK   = regexp.MustCompile(`if (\w+),*\s*(\w*)\s*:*=\s*([^(]+)\(*([^)]*)\)\.\((\w*)\)\s*;\s*([!\w]+)\s*{`)
 	reCondExprOK  = regexp.MustCompile(`if .*;\s*([!:\w]+)(.*)(.*)\s*{`)
